@@ -20,7 +20,7 @@ func c01Operand(name string, k int, slot int, values map[string]any) string {
 		return text
 	case 2:
 		text := []string{"\"s1\"", "\"s2\"", "\"s3\""}[slot]
-		n := verif.Choice(name+"len", 3)
+		n := verif.Choice(name+"len", 3+verif.Tier())
 		values[text] = verif.String(name, n)
 		return text
 	case 3:
@@ -151,14 +151,14 @@ func C01_IntSpellings() {
 	var text string
 	switch verif.Choice("form", 3) {
 	case 0: // decimal / octal by leading zero, 1..3 digits
-		n := 1 + verif.Choice("digits", 3)
+		n := 1 + verif.Choice("digits", 3+2*verif.Tier())
 		d := verif.Bytes("d", n)
 		for _, c := range d {
 			verif.Assume(c >= '0' && c <= '9')
 		}
 		text = string(d)
 	case 1: // hex
-		n := 1 + verif.Choice("digits", 2)
+		n := 1 + verif.Choice("digits", 2+2*verif.Tier())
 		d := verif.Bytes("d", n)
 		for _, c := range d {
 			verif.Assume(c >= '0' && c <= '9' || c >= 'a' && c <= 'f' || c >= 'A' && c <= 'F')
@@ -208,6 +208,9 @@ func C01_Literals() {
 // (or, and, ==, <, +, *, plus - and / for associativity), symbolic int leaves.
 func C01_Three() {
 	reps := []string{"or", "and", "==", "<", "+", "*", "-", "/"}
+	if verif.Tier() == 1 {
+		reps = c01BinOps // all twelve
+	}
 	op1 := reps[verif.Choice("op1", len(reps))]
 	op2 := reps[verif.Choice("op2", len(reps))]
 	op3 := reps[verif.Choice("op3", len(reps))]
